@@ -60,7 +60,8 @@ for q, qname in (("None", "auto"), ("StringQuoting.SINGLE_QUOTES", "single"), ("
          extra_args={"quoting": (lambda qq: (lambda it, fr: it.eval_spec(qq, fr)))(q),
                      "without_enclosing": lambda it, fr: it.eval_spec("False", fr),
                      "duplicate_curly_brackets": lambda it, fr: it.eval_spec("False", fr)},
-         replay_kind="python")
+         # also C30: the constants, string sets and from-string maps of the Python SDK are written with this function
+         prop=("C19", "C30"), replay_kind="python")
 
 # ---- C++
 _add("aas_core_codegen.cpp.common:wstring_literal", "cpp_wide(result)", "cpp.wstring_literal", replay_kind="cpp_wide")
